@@ -105,6 +105,43 @@ Theorem C04_grown_iff_cursor_gone :
 Proof. exact grown_iff_dead. Qed.
 Print Assumptions C04_grown_iff_cursor_gone.
 
+(* What a read-only observer REPORTS (a count, or the rows of a slice of the frame) after any history
+   on an eagerly created frame is a function of the frame's current rows only - original rows plus
+   stored appends - never of the cursor position, and making the report moves nothing. *)
+Theorem C04_observer_reports_rows_only :
+  forall (A : Type) (l : list A) (ops : list (op A)) (v : view),
+  let '(s', xs) := run (init_eager l) ops in
+  step s' (ObserveView v) = (s', view_out v (l ++ appended ops)).
+Proof. exact view_after_any_history. Qed.
+Print Assumptions C04_observer_reports_rows_only.
+
+(* Object identity.  A frame-returning observer (slice / head / tail / query / distinct) called on a
+   materialised frame leaves every frame of the heap exactly as it was and hands back a NEW frame:
+   its own row list, its own cursor standing before its own first row - whatever the bounds are. *)
+Theorem C04_derived_frame_is_fresh :
+  forall (A : Type) (h : list (st A)) (i : nat) (d : dop A) (s : st A),
+  nth_error h i = Some s -> lazy s = false ->
+  sstep h (Derive i d) =
+    (h ++ [init_eager (derive_rows d (rows s))], SDerived (derive_rows d (rows s))).
+Proof. exact derive_fresh. Qed.
+Print Assumptions C04_derived_frame_is_fresh.
+
+(* Frames are independent: in ANY session over materialised frames - calls on any frame, frames derived
+   from any frame at any time - the final state of frame j and everything the calls on frame j returned
+   are exactly those of frame j run on its own over the calls addressed to it (sel j).  Hence every
+   single-frame theorem above holds for every frame of a session: fetching from, or appending to, a
+   slice can neither move nor kill the cursor of the frame it was taken from, and vice versa. *)
+Theorem C04_frames_independent :
+  forall (A : Type) (ops : list (sop A)) (h : list (st A)),
+  all_eager h ->
+  let '(h', xs) := srun h ops in
+  all_eager h' /\ length h <= length h' /\
+  forall j s, nth_error h j = Some s ->
+    nth_error h' j = Some (fst (run s (sel j ops))) /\
+    outs_for j ops xs = snd (run s (sel j ops)).
+Proof. exact srun_frames. Qed.
+Print Assumptions C04_frames_independent.
+
 (* Lazily backed frame read only through the cursor (failed append calls allowed: they leave
    the generator alone): fetched ++ not-yet-yielded is the
    original row sequence (so the fetched rows are a prefix, in order, none skipped or
@@ -139,3 +176,17 @@ Example C04_nonvacuous_append :
     [ORow (Some 10%Z); OAppend false (Some 3); ORow (Some 11%Z); OAppend true (Some 4);
      ORaise; OAppend false (Some 4); ORaise].
 Proof. repeat split; reflexivity. Qed.
+
+(* Non-vacuity for the session theorems: one row fetched from the source, a slice covering the whole
+   frame taken, read to its end and appended to; the source carries on with rows 11, 12, 13, and a
+   full-frame report (markdown(limit=0)-like) in between shows all four rows and moves nothing. *)
+Example C04_nonvacuous_session :
+  let ops := [On 0 FetchOne; Derive 0 (DSlice 0 (Some 4)); On 1 FetchAll; On 1 (Append 1000);
+              On 0 (ObserveView (VRows 0 None)); On 0 (FetchMany (Some 2)); On 1 FetchOne; On 0 FetchAll]%Z in
+  all_eager [init_eager [10; 11; 12; 13]%Z] /\
+  snd (srun [init_eager [10; 11; 12; 13]%Z] ops) =
+    [SOut (ORow (Some 10%Z)); SDerived [10; 11; 12; 13]%Z; SOut (ORows [10; 11; 12; 13]%Z);
+     SOut (OAppend true (Some 5)); SOut (OSeen [10; 11; 12; 13]%Z); SOut (ORows [11; 12]%Z);
+     SOut ORaise; SOut (ORows [13]%Z)] /\
+  sel 0 ops = [FetchOne; ObserveView (VRows 0 None); FetchMany (Some 2%Z); FetchAll].
+Proof. split; [repeat constructor|split; reflexivity]. Qed.
